@@ -26,7 +26,7 @@
 
 void band_update_stats(band_state *band)
 __CPROVER_requires(PRE_band(band))
-__CPROVER_assigns(band != NULL: *band; g_led)
+__CPROVER_assigns(band != NULL: *band)
 __CPROVER_ensures(C13_NI_FORMULA(band, __CPROVER_old(band->r), __CPROVER_old(band->begun), __CPROVER_old(band->Ni))) /*@C13.ni-formula*/
 __CPROVER_ensures(C13_NI_RANGE(band)) /*@C13.ni-range*/
 __CPROVER_ensures(C13_R_RESET(band)) /*@C13.r-reset*/
@@ -40,7 +40,7 @@ __CPROVER_ensures(C13_UPD_REST(band, __CPROVER_old(band->begun), __CPROVER_old(b
 
 uint64_t band_choose_hello_time(band_state *band)
 __CPROVER_requires(PRE_band(band))
-__CPROVER_assigns(band != NULL: *band; g_led)
+__CPROVER_assigns(band != NULL: *band)
 __CPROVER_ensures(C13_INTERVAL(band, __CPROVER_return_value)) /*@C13.interval*/
 __CPROVER_ensures(C13_CHOOSE_REST(band, __CPROVER_old(band->Ni), __CPROVER_old(band->r), __CPROVER_old(band->begun), __CPROVER_old(band->block_timeout_ts))) /*@C13.choose-rest*/
 ;
@@ -51,7 +51,7 @@ __CPROVER_ensures(C13_CHOOSE_REST(band, __CPROVER_old(band->Ni), __CPROVER_old(b
 
 void band_do_hello(band_state *band)
 __CPROVER_requires(PRE_band(band))
-__CPROVER_assigns(band != NULL: *band; g_led)
+__CPROVER_assigns(band != NULL: *band)
 __CPROVER_ensures(C13_DOHELLO(band, __CPROVER_old(band->Ni), __CPROVER_old(band->r), __CPROVER_old(band->block_timeout_ts))) /*@C13.do-hello*/
 ;
 
@@ -71,7 +71,7 @@ __CPROVER_ensures(C13_HEARD(band, __CPROVER_old(band->Ni), __CPROVER_old(band->r
 
 void band_init_stats(band_state *band)
 __CPROVER_requires(band == NULL || V_RW_OK(band, sizeof(band_state)))
-__CPROVER_assigns(band != NULL: *band; g_led)
+__CPROVER_assigns(band != NULL: *band)
 __CPROVER_ensures(C13_INIT(band)) /*@C13.init*/
 ;
 
@@ -149,23 +149,23 @@ static inline bool v_autom_step_rel(const automata *a, uint8_t s0, int input, ui
 
 automata *switch_state_mapping(automata *autom, int input, char *debug)
 __CPROVER_requires(PRE_switch(autom))
-__CPROVER_assigns(autom->current_state, autom->last_ts, g_led)
+__CPROVER_assigns(autom->current_state, autom->last_ts)
 __CPROVER_ensures(__CPROVER_return_value == autom) /*@C14.ret C01.ret*/
-__CPROVER_ensures(STEP_GENERIC(autom, __CPROVER_old(autom->current_state), input, __CPROVER_old(autom->last_ts), v_next_s(__CPROVER_old(g_led.clk_reads), __CPROVER_old(g_led.clk_s)))) /*@C14.step-generic*/
+__CPROVER_ensures(STEP_GENERIC(autom, __CPROVER_old(autom->current_state), input, __CPROVER_old(autom->last_ts), v_now_s())) /*@C14.step-generic*/
 __CPROVER_ensures(STEP_FRAME(autom)) /*@C14.last-ts C01.closed*/
 ;
 
 automata *switch_state_session(automata *autom, int input, char *debug)
 __CPROVER_requires(PRE_switch(autom))
-__CPROVER_assigns(autom->current_state, autom->last_ts, g_led)
+__CPROVER_assigns(autom->current_state, autom->last_ts)
 __CPROVER_ensures(__CPROVER_return_value == autom) /*@C15.ret C01.ret*/
-__CPROVER_ensures(STEP_GENERIC(autom, __CPROVER_old(autom->current_state), input, __CPROVER_old(autom->last_ts), v_next_s(__CPROVER_old(g_led.clk_reads), __CPROVER_old(g_led.clk_s)))) /*@C15.step-generic*/
+__CPROVER_ensures(STEP_GENERIC(autom, __CPROVER_old(autom->current_state), input, __CPROVER_old(autom->last_ts), v_now_s())) /*@C15.step-generic*/
 __CPROVER_ensures(STEP_FRAME(autom)) /*@C15.last-ts C01.closed*/
 ;
 
 automata *switch_state_enumeration(automata *autom, int input, char *debug)
 __CPROVER_requires(PRE_switch(autom))
-__CPROVER_assigns(autom->current_state, autom->last_ts, g_led)
+__CPROVER_assigns(autom->current_state, autom->last_ts)
 __CPROVER_ensures(__CPROVER_return_value == autom) /*@C12.ret C01.ret*/
 __CPROVER_ensures(STEP_FRAME(autom)) /*@C12.last-ts C01.closed*/
 ;
@@ -232,10 +232,25 @@ static inline bool v_st_unique(const session_table *t) { return g_j >= ST_N || v
  * caller's write to entry->complete and its call of session_table_update_complete_status) */
 /* evaluated on a by-value copy: one dereference of the (possibly NULL / freshly allocated) pointer instead
  * of ~200, each of which would carry its own pointer-validity obligations */
-static inline bool v_st_wf_noflag_v(session_table tv) { return tv.count == v_st_size(&tv) && v_st_unique(&tv); }
-static inline bool v_st_wf_v(session_table tv) { return v_st_wf_noflag_v(tv) && tv.all_complete == v_st_allc(&tv); }
-static inline unsigned v_st_size_v(session_table tv) { return v_st_size(&tv); }
-static inline bool v_st_allc_v(session_table tv) { return v_st_allc(&tv); }
+/* flat (call-free) by-value forms: DFCC mis-links nested spec-function calls inside the clauses of REPLACED
+ * contracts ("not enough arguments, inserting non-deterministic value") */
+#define V_SZV_(i) + (v_u8sum)(tv.entries[i].valid ? 1 : 0)
+#define V_ALLCV_(i) && (!tv.entries[i].valid || tv.entries[i].complete)
+#define V_GJX_ (g_j < ST_N ? g_j : 0)
+#define V_UNQV_(i) && ((size_t)(i) == g_j || !(tv.entries[i].valid && \
+        tv.entries[i].mapper_mac[0] == tv.entries[V_GJX_].mapper_mac[0] && tv.entries[i].mapper_mac[1] == tv.entries[V_GJX_].mapper_mac[1] && \
+        tv.entries[i].mapper_mac[2] == tv.entries[V_GJX_].mapper_mac[2] && tv.entries[i].mapper_mac[3] == tv.entries[V_GJX_].mapper_mac[3] && \
+        tv.entries[i].mapper_mac[4] == tv.entries[V_GJX_].mapper_mac[4] && tv.entries[i].mapper_mac[5] == tv.entries[V_GJX_].mapper_mac[5] && \
+        tv.entries[i].generation == tv.entries[V_GJX_].generation))
+#define V_UNQV_ALL_ (g_j >= ST_N || !tv.entries[V_GJX_].valid || (true V_REP16(V_UNQV_)))
+static inline unsigned v_st_size_v(session_table tv) { return (unsigned)((v_u8sum)0 V_REP16(V_SZV_)); }
+static inline bool v_st_allc_v(session_table tv) { return true V_REP16(V_ALLCV_); }
+static inline bool v_st_wf_noflag_v(session_table tv) {
+    return tv.count == (unsigned)((v_u8sum)0 V_REP16(V_SZV_)) && V_UNQV_ALL_;
+}
+static inline bool v_st_wf_v(session_table tv) {
+    return tv.count == (unsigned)((v_u8sum)0 V_REP16(V_SZV_)) && V_UNQV_ALL_ && tv.all_complete == (true V_REP16(V_ALLCV_));
+}
 static inline bool v_st_has_v(session_table tv, const uint8_t *mac, uint16_t gen) { return v_st_has(&tv, mac, gen); }
 #define ST_WF_NOFLAG(t) (V_RW_OK((t), sizeof(session_table)) && v_st_wf_noflag_v(*(t)))
 #define ST_WF(t)        (V_RW_OK((t), sizeof(session_table)) && v_st_wf_v(*(t)))
@@ -290,7 +305,7 @@ __CPROVER_ensures(C16_FIND_MISS(table, mapper_mac, generation, __CPROVER_return_
 session_entry *session_table_add(session_table *table, const uint8_t *mapper_mac, uint16_t generation, uint16_t seq)
 __CPROVER_requires(ADD_ARGS_OK(table, mapper_mac))
 __CPROVER_requires(GJ_OK)
-__CPROVER_assigns(table != NULL: *table; g_led)
+__CPROVER_assigns(table != NULL: *table)
 __CPROVER_ensures(C16_ADD_WF(table)) /*@C16.add-wf*/
 __CPROVER_ensures(C16_ADD_RET(table, mapper_mac, generation, seq, __CPROVER_return_value)) /*@C16.add-ret*/
 __CPROVER_ensures(C16_ADD_GJ(table, __CPROVER_return_value, __CPROVER_old(table->entries[g_j]), __CPROVER_old(table->count))) /*@C16.add-others*/
@@ -335,6 +350,85 @@ void session_table_clear(session_table *table)
 __CPROVER_requires(table == NULL || V_RW_OK(table, sizeof(session_table)))
 __CPROVER_assigns(table != NULL: *table)
 __CPROVER_ensures(table == NULL || (ST_WF(table) && table->count == 0 && table->all_complete)) /*@C16.clear*/
+;
+
+/* =============================== C11: session-event classification ============================== */
+/* full key uniqueness over constant index pairs (cheap, unlike a symbolic ghost index) */
+#define V_UQ2_(i) && v_st_unique_with_i(t, i)
+static inline bool v_st_unique_with_i(const session_table *t, int i) {
+    return !t->entries[i].valid ||
+           (true
+#define V_UQ3_(j) && ((j) <= i || !(t->entries[j].valid && v_mac_eq(t->entries[j].mapper_mac, t->entries[i].mapper_mac) && \
+                      t->entries[j].generation == t->entries[i].generation))
+            V_REP16(V_UQ3_));
+}
+static inline bool v_st_unique_all(const session_table *t) { return true V_REP16(V_UQ2_); }
+/* "a session with the same mapper and generation is known under a different sequence number" */
+#define V_CHG_(i) || (t->entries[i].valid && v_key_eq(&t->entries[i], mac, gen) && t->entries[i].seq_number != xid)
+static inline bool v_st_known_other_seq(const session_table *t, const uint8_t *mac, uint16_t gen, uint16_t xid) {
+    return false V_REP16(V_CHG_);
+}
+
+int derive_session_event(const void *frame, session_table *table, const uint8_t *our_mac)
+__CPROVER_requires(table == NULL || ST_WF_NOFLAG(table))
+__CPROVER_requires(our_mac == NULL || V_R_OK(our_mac, 6))
+__CPROVER_requires(GJ_OK)
+__CPROVER_assigns()
+__CPROVER_ensures(__CPROVER_return_value >= -1 && __CPROVER_return_value <= 7) /*@C11.range*/
+__CPROVER_ensures(frame != NULL || __CPROVER_return_value == -1) /*@C11.null-frame*/
+;
+
+/* =============================== C14: mapping-session timers ==================================== */
+#define PRE_mstate(m) ((m) == NULL || V_RW_OK((m), sizeof(mapping_state)))
+
+void mapping_reset_charge(mapping_state *mstate)
+__CPROVER_requires(PRE_mstate(mstate))
+__CPROVER_assigns(mstate != NULL: mstate->ctc, mstate->charge_timeout_ts)
+__CPROVER_ensures(mstate == NULL || (mstate->ctc == 0 && mstate->charge_timeout_ts == 0)) /*@C14.reset-charge*/
+;
+void mapping_on_charge(mapping_state *mstate)
+__CPROVER_requires(PRE_mstate(mstate))
+__CPROVER_assigns(mstate != NULL: mstate->ctc, mstate->charge_timeout_ts)
+__CPROVER_ensures(mstate == NULL || (mstate->ctc == (uint8_t)(__CPROVER_old(mstate->ctc) + 1) && mstate->charge_timeout_ts == v_now_s() + 1)) /*@C14.on-charge*/
+;
+#define C14_CHECK_CHARGE(m, ret, c0, ts0) \
+    ((m) == NULL ? !(ret) : ((ret) == ((ts0) != 0 && v_now_s() >= (ts0)) && \
+                             ((ret) ? ((m)->ctc == 0 && (m)->charge_timeout_ts == 0) : ((m)->ctc == (c0) && (m)->charge_timeout_ts == (ts0)))))
+bool mapping_check_charge_timeout(mapping_state *mstate)
+__CPROVER_requires(PRE_mstate(mstate))
+__CPROVER_assigns(mstate != NULL: mstate->ctc, mstate->charge_timeout_ts)
+__CPROVER_ensures(C14_CHECK_CHARGE(mstate, __CPROVER_return_value, __CPROVER_old(mstate->ctc), __CPROVER_old(mstate->charge_timeout_ts))) /*@C14.check-charge*/
+;
+#define C14_CHECK_INACTIVE(m, ret) ((m) == NULL ? !(ret) : (ret) == ((m)->inactive_timeout_ts != 0 && v_now_s() >= (m)->inactive_timeout_ts))
+bool mapping_check_inactive_timeout(mapping_state *mstate)
+__CPROVER_requires(PRE_mstate(mstate))
+__CPROVER_assigns()
+__CPROVER_ensures(C14_CHECK_INACTIVE(mstate, __CPROVER_return_value)) /*@C14.check-inactive*/
+;
+void mapping_reset_inactive_timeout(mapping_state *mstate)
+__CPROVER_requires(PRE_mstate(mstate))
+__CPROVER_assigns(mstate != NULL: mstate->inactive_timeout_ts)
+__CPROVER_ensures(mstate == NULL || mstate->inactive_timeout_ts == v_now_s() + 30) /*@C14.inactive-deadline*/
+;
+
+/* =============================== C12 / C14 / C16: periodic tick ================================= */
+#define PRE_tick_autom(a, extra_size) ((a) == NULL || (PRE_switch(a) && ((a)->extra == NULL || V_RW_OK((a)->extra, (extra_size)))))
+void automata_tick(automata *mapping, automata *enumeration, session_table *sessions, const lltd_automata_tick_port *port)
+__CPROVER_requires(PRE_tick_autom(mapping, sizeof(mapping_state)))
+__CPROVER_requires(PRE_tick_autom(enumeration, sizeof(band_state)))
+__CPROVER_requires(enumeration == NULL || enumeration->extra == NULL || BAND_OK((band_state *)enumeration->extra))
+__CPROVER_requires(sessions == NULL || ST_WF(sessions))
+__CPROVER_requires(GJ_OK)
+__CPROVER_requires(port == NULL || (V_R_OK(port, sizeof(*port)) && (port->last_hello_tx_ms == NULL || V_RW_OK(port->last_hello_tx_ms, 8))))
+__CPROVER_assigns(g_led;
+    mapping != NULL: mapping->current_state, mapping->last_ts;
+    mapping != NULL && mapping->extra != NULL: __CPROVER_object_whole(mapping->extra);
+    enumeration != NULL: enumeration->current_state, enumeration->last_ts;
+    enumeration != NULL && enumeration->extra != NULL: __CPROVER_object_whole(enumeration->extra);
+    sessions != NULL: *sessions;
+    port != NULL && port->last_hello_tx_ms != NULL: *port->last_hello_tx_ms)
+__CPROVER_ensures(g_led.hello_periodic <= __CPROVER_old(g_led.hello_periodic) + 1) /*@C12.at-most-one*/
+__CPROVER_ensures(sessions == NULL || ST_WF(sessions)) /*@C16.tick-wf*/
 ;
 
 #endif
